@@ -9,8 +9,8 @@ import lanes
 
 TYPES = [("i8", 1, "i"), ("u8", 1, "i"), ("i16", 2, "i"), ("u16", 2, "i"), ("i32", 4, "i"), ("u32", 4, "i"),
          ("i64", 8, "i"), ("u64", 8, "i"), ("f32", 4, "f"), ("f64", 8, "f")]
-CMP = ["eq", "neq", "lt", "le", "gt", "ge", "op==", "op!=", "op<", "op<=", "op>", "op>="]
-BIN = ["and", "or", "xor", "andnot", "eq", "neq", "land", "lor", "fand", "for", "fxor"]
+CMP = ["eq", "neq", "lt", "le", "gt", "ge", "op==", "op!=", "op<", "op<=", "op>", "op>=", "op!"]
+BIN = ["and", "or", "xor", "andnot", "eq", "neq", "land", "lor", "fand", "for", "fxor", "and=", "or=", "xor="]
 UNQ = ["not", "lnot", "fnot", "id", "mask", "all", "any", "none", "count", "get", "tobatch", "bitcast", "select01", "cast_i", "cast_u", "cast_f"]
 CORE = ["not", "id", "mask", "all", "any", "none", "count", "get"]
 SRC = ["", "@fm", "@cmp"]
@@ -93,7 +93,7 @@ def make_plan(ctx):
                 st = structured(n, rng, 8)
                 pairs = [(p, q) for p in st[:: max(1, len(st) // 24)] for q in st[:: max(1, len(st) // 24)]]
                 pairs += [(rng.getrandbits(n), rng.getrandbits(n)) for _ in range(ctx.q(256, 4096))]
-            ALIAS = {"land", "lor", "fand", "for", "fxor", "fnot", "lnot", "cast_i", "cast_u", "cast_f", "select01", "bitcast"}
+            ALIAS = {"and=", "or=", "xor=", "land", "lor", "fand", "for", "fxor", "fnot", "lnot", "cast_i", "cast_u", "cast_f", "select01", "bitcast"}
             for src in SRC:
                 full = src == ""
                 for op in UNQ:
